@@ -133,6 +133,70 @@ def model_bytes(pc, n, extra=()):
     return bytes(m.eval(z3.BitVec("b_%d" % k, 8), model_completion=True).as_long() for k in range(n))
 
 
+def _used_bytes(pc):
+    seen, out, stack = set(), set(), list(pc)
+    while stack:
+        t = stack.pop()
+        i = t.get_id()
+        if i in seen:
+            continue
+        seen.add(i)
+        if z3.is_const(t) and t.decl().kind() == z3.Z3_OP_UNINTERPRETED:
+            nm = t.decl().name()
+            if nm.startswith("b_"):
+                out.add(int(nm[2:]))
+        else:
+            stack.extend(t.children())
+    return out
+
+
+def canonical_bytes(pc, n, high=False):
+    """the lexicographically smallest (largest if high) input satisfying a path condition: a witness that does not depend on
+    which model the solver happens to return.  Bytes the condition does not mention are 0x00 (0xff)."""
+    s = z3.Solver()
+    s.set("timeout", 20000)
+    s.add(*pc)
+    if s.check() != z3.sat:
+        return None
+    used = sorted(k for k in _used_bytes(pc) if k < n)
+    vals = {}
+    for k in used:
+        b = bvar(k)
+        lo, hi = 0, 255
+        while lo < hi:
+            mid = (lo + hi) // 2
+            s.push()
+            if high:
+                s.add(z3.UGT(b, mid))
+            else:
+                s.add(z3.ULE(b, mid))
+            r = s.check()
+            s.pop()
+            if r == z3.unknown:
+                return None
+            if (r == z3.sat) != high:
+                hi = mid
+            else:
+                lo = mid + 1
+        # lo is the extreme feasible value (for high: values > lo-1 ... handled by symmetric search)
+        v = lo
+        s.add(b == v)
+        if s.check() != z3.sat:
+            # numerical edge of the symmetric search: fall back to the solver's value
+            s2 = z3.Solver()
+            s2.add(*pc)
+            for kk, vv in vals.items():
+                s2.add(bvar(kk) == vv)
+            if s2.check() != z3.sat:
+                return None
+            v = s2.model().eval(b, model_completion=True).as_long()
+            s = s2
+            s.add(b == v)
+        vals[k] = v
+    fill = 0xFF if high else 0x00
+    return bytes(vals.get(k, fill) for k in range(n))
+
+
 def bvar(k):
     return z3.BitVec("b_%d" % k, 8)
 
